@@ -251,9 +251,10 @@ def jobs(tier):
     js = []
     geos = QUICK if tier == "quick" else THOROUGH
     for est, fpr in geos:
-        js.append({"h": "c01.step", "cfg": {"est": est, "fpr": fpr}, "opts": {"cost": est * 10}})
+        big = {"path_seconds": 2400, "max_seconds": 3000} if est >= 20 else {}     # 192 / 1438 bits: one path takes 3-10 min
+        js.append({"h": "c01.step", "cfg": {"est": est, "fpr": fpr}, "opts": dict(big, cost=est * 10)})
         if (tier == "thorough" and est < 100) or (tier == "quick" and est <= 5):       # 1438 bits with hash values in [-2^64, 2^65]: 'bits-exact' is `unknown` after 5 min
-            js.append({"h": "c01.step", "cfg": {"est": est, "fpr": fpr, "wide": True}, "opts": {"cost": est * 10}})
+            js.append({"h": "c01.step", "cfg": {"est": est, "fpr": fpr, "wide": True}, "opts": dict(big, cost=est * 10)})
     for est, fpr in SMALL:
         js.append({"h": "c01.decide", "cfg": {"est": est, "fpr": fpr}})
         js.append({"h": "c01.wrappers", "cfg": {"est": est, "fpr": fpr}})
